@@ -1,7 +1,8 @@
 #!/usr/bin/env python3
 """Regenerate /verif/MANIFEST.json from the rule modules present in rules/ (one check per claimed
 property; every other property goes to not_applicable with its reason from NA_REASONS)."""
-import importlib, json, os, sys
+import importlib, json, os, re, sys
+FAM = re.compile(r'[A-Z]+(/[A-Z]+)*')
 V = os.path.dirname(os.path.dirname(os.path.abspath(__file__)))
 sys.path.insert(0, os.path.join(V, 'engine')); sys.path.insert(0, os.path.join(V, 'rules'))
 props = [json.loads(l) for l in open(os.path.join(V, 'properties.jsonl'))]
@@ -25,8 +26,11 @@ for p in props:
                 'design_ref': f'DESIGN.md section 5 ({pid})'},
             'level_note': 'Trusted base: rustc nightly MIR + type resolution, the mirfacts driver, engine/core.py (term tracing, '
                           'cut-set reachability), the RFC-derived guard tables in rules/' + pid + '.py. Assumes: ' + '; '.join(m.ASSUMPTIONS),
-            'technique': getattr(m, 'TECHNIQUE', 'static analysis: MIR-level guard/dominance (cut-set), path, who-may-write and table rules over '
-                                                 'the type-checked feature-full build via a rustc_private driver'),
+            'technique': getattr(m, 'TECHNIQUE', None) or (
+                'static analysis (no execution of hickory-dns): ' + FAM.sub(lambda x: x.group(0), m.EXPLANATION.split(' rules ')[0]) +
+                ' rules of the /verif rule engine over MIR facts (pre-optimisation mir_promoted, resolved callees) extracted by a rustc_private '
+                'driver from the type-checked feature-full build of /repo; thorough tier: same rules on the dnssec-aws-lc-rs build, '
+                'self-test on the seeded defect and benign-edit controls in scratch copies'),
         })
     else:
         na.append({'property_id': pid, 'reason': NA_REASONS.get(pid, 'static check under construction at this commit (DESIGN.md section 8); not claimed yet')})
